@@ -277,7 +277,7 @@ def C12(ctx):
                      'asked for as S1 and *S1; wire.FieldsOf over S1 / *S1 provided by function / parameter / struct provider for subsets of {A,B,c} consumed by value or as pointer into the struct; '
                      'non-trivial = every case; judge: rejected iff a name is unknown/prevented (exact match); at run time exactly the selected fields carry the value of the source of their type, '
                      'all others zero; F is the field of the provided struct and *F aliases it (pointer ordinals)')
-    cases = ctx.export('FamilyS(p)') + ctx.export('FamilyX(p, {"struct-fields-from-params-crossed", "two-fieldsof-items", "foreign-struct-exported-name"})')
+    cases = ctx.export('FamilyS(p)') + ctx.export('FamilyX(p, {"struct-fields-from-params-crossed", "two-fieldsof-items", "foreign-struct-exported-name", "embedded-fields-struct", "embedded-fields-fieldsof"})')
     ctx.res.cov['exhaustive'] = True
     ctx.design_inject(cases, maxcalls=2, label='family S ')
     ctx.run(cases, runtime=True, switches=W_ONLY)
